@@ -195,4 +195,46 @@ example : validate
     (.streamAgg x one (.bin .add (.agg .max (.bin .add (.ref x) (.i32 1)))
       (.aggFilter small (.agg .max (.bin .add (.ref x) (.i32 1)))))) = true := by decide
 
+/-! ### `AggGroupBy` and `AggExplode` re-bind the capability too -/
+
+/-- an aggregation lifted above an `AggGroupBy`: rejected; bound inside the group: accepted -/
+example : validate
+    (.streamAgg x one (.let_ c1 mx (.aggGroupBy small (.bin .add (.ref c1) (.ref c1)))))
+    (.streamAgg x one (.aggGroupBy small (.bin .add mx mx))) = false := by decide
+
+example : validate
+    (.streamAgg x one (.aggGroupBy small (.let_ c1 mx (.bin .add (.ref c1) (.ref c1)))))
+    (.streamAgg x one (.aggGroupBy small (.bin .add mx mx))) = true := by decide
+
+/-- the per-group maximum against the overall maximum: `{true: 1, false: 5}` is not `{true: 5, false: 5}` -/
+theorem agg_not_lifted_across_groupBy :
+    eval [] [] (.streamAgg x one (.let_ c1 mx (.aggGroupBy small (.ref c1))))
+      = .dict [(.bool true, .i32 5), (.bool false, .i32 5)] ∧
+    eval [] [] (.streamAgg x one (.aggGroupBy small mx))
+      = .dict [(.bool true, .i32 1), (.bool false, .i32 5)] := by
+  constructor <;> rfl
+
+private def y : Name := .user "y"
+private def twice : IR := .toStream (.acons (.ref x) (.acons (.ref x) (.anil .int32)))
+
+/-- an aggregation over the exploded elements is not the aggregation over the outer elements: lifted above `AggExplode`,
+rejected (`collect` sees 2 elements outside, 4 inside) -/
+example : validate
+    (.streamAgg x one (.let_ c1 (.arrayLen (.agg .collect (.ref x))) (.aggExplode y twice (.bin .add (.ref c1) (.ref c1)))))
+    (.streamAgg x one (.aggExplode y twice (.bin .add (.arrayLen (.agg .collect (.ref x))) (.arrayLen (.agg .collect (.ref x))))))
+    = false := by decide
+
+theorem agg_not_lifted_across_explode :
+    eval [] [] (.streamAgg x one (.let_ c1 (.arrayLen (.agg .collect (.ref x))) (.aggExplode y twice (.ref c1)))) = .i32 2 ∧
+    eval [] [] (.streamAgg x one (.aggExplode y twice (.arrayLen (.agg .collect (.ref x))))) = .i32 4 := by
+  constructor <;> rfl
+
+/-- an `AggLet __cse` binding substituted into the stream of an `AggExplode` and into a group-by key: accepted -/
+example : validate
+    (.streamAgg x one (.aggLet c1 (.bin .add (.ref x) (.i32 1))
+      (.aggGroupBy (.cmp .lt (.ref c1) (.i32 3)) (.aggExplode y (.toStream (.acons (.ref c1) (.anil .int32))) (.agg .max (.ref y))))))
+    (.streamAgg x one
+      (.aggGroupBy (.cmp .lt (.bin .add (.ref x) (.i32 1)) (.i32 3))
+        (.aggExplode y (.toStream (.acons (.bin .add (.ref x) (.i32 1)) (.anil .int32))) (.agg .max (.ref y))))) = true := by decide
+
 end HailVerif.C35
